@@ -264,6 +264,7 @@ class SimPool:
         self.position = 0             # running task position within the batch (indexes durations)
         self.chunk_counter = 0
         self.completions: List[int] = []
+        self.result_handler_dead = False
         if initializer is not None:
             for _ in range(self._processes):
                 initializer(*initargs)
@@ -480,12 +481,23 @@ class SimPool:
                 continue
             job, index, outcome, chunk_id, worker = data
             if kind == "complete":
+                if self.result_handler_dead:
+                    continue      # nobody is left to take results off the pipe
                 try:
-                    outcome = pickle.loads(pickle.dumps(outcome))
+                    blob = pickle.dumps(outcome)
                 except Exception as err:  # pylint: disable=broad-except
+                    # in the worker: the result cannot be sent, an error about that is sent instead
                     self.sched.fired["unpicklable_result"] += 1
-                    wrapped = multiprocessing.pool.MaybeEncodingError(err, outcome[1])
-                    outcome = (False, wrapped)
+                    blob = pickle.dumps((False, multiprocessing.pool.MaybeEncodingError(err, outcome[1])))
+                try:
+                    outcome = pickle.loads(blob)
+                except Exception as err:  # pylint: disable=broad-except
+                    # in the parent: the result handler thread dies on a result it cannot rebuild (e.g. an exception
+                    # class whose constructor does not accept its own args), and no further result is ever delivered
+                    self.sched.fired["result_handler_died"] += 1
+                    self.sched.log.append(["result-handler-died", chunk_id, type(err).__name__])
+                    self.result_handler_dead = True
+                    continue
                 self.completions.append(chunk_id)
                 self.sched.log.append(["complete", chunk_id, round(self.sched.now, 6), bool(outcome[0])])
                 self.idle.append(worker)
